@@ -64,9 +64,24 @@ def run_config(c, col):
     E.cfg.concrete_ints = True
     ju = E.load("mchap.jitutils")
     prof = E.Profile()
-    with prof:
-        getattr(_G, c["group"].replace("-", "_"))(c, col, ju)
+    E.cfg.note_int_truediv = True
+    try:
+        with prof:
+            getattr(_G, c["group"].replace("-", "_"))(c, col, ju)
+    finally:
+        E.cfg.note_int_truediv = False
     col.functions |= set(prof.names())
+
+
+def _float_events(pr, col, site, c):
+    """the kernels are integer code: a true division of two integers makes the value a float64 under numba, exact only
+    below 2^53 -- reported as a candidate and decided by the replay at the 2^53 boundary of the property"""
+    evs = [e for e in pr.ctx.events if e["kind"] == "int-truediv"]
+    if evs:
+        col.fail(site, "float-arithmetic", shape=dict(group=c["group"]), witness=dict(first=evs[0], n=len(evs), P=c.get("P", c.get("k"))),
+                 desc="integer kernel applies '/' to integers (%s / %s): float64 arithmetic, inexact for intermediates >= 2^53 although N < 2^53" % (evs[0]["a"], evs[0]["b"]))
+    else:
+        col.ok("no floating-point operation on the path (integer-only arithmetic: exact)")
 
 
 class _G:
@@ -105,6 +120,7 @@ class _G:
                 col.reachable(pr.ctx)
                 first = False
             g, idx, back, nxt, idx_n = pr.value
+            _float_events(pr, col, site, c)
             sh = dict(beyond_table=top >= 99)
             if idx != _order_index(g) or not (0 <= idx < math.comb(top + 1 + P - 1, P)):
                 col.fail(site, "index-vs-vcf-order", shape=sh, witness=dict(g=g, got=idx, want=_order_index(g)), desc="index != VCF rank")
@@ -145,6 +161,7 @@ class _G:
                 first = False
             i, g = pr.value
             seen.add(i)
+            _float_events(pr, col, site, c)
             if g != list(order[i]):
                 col.fail(site, "index-to-genotype", witness=dict(index=i, got=g, want=list(order[i])), desc="index_as_genotype_alleles(i) != i-th genotype in VCF order")
             else:
@@ -200,6 +217,7 @@ class _G:
                     continue
                 col.path()
                 nv, r, r2, r3 = pr.value
+                _float_events(pr, col, site, c)
                 want = math.comb(nv, k)
                 if want >= 2 ** 53:
                     continue
@@ -233,6 +251,7 @@ class _G:
                 col.reachable(pr.ctx)
                 first = False
             n, k, a, b = pr.value
+            _float_events(pr, col, site, c)
             wa = math.comb(n, k)
             wb = math.comb(n + k - 1, k) if (n + k) > 0 else None  # (0,0): the code's own convention, not claimed
             bad = []
@@ -285,12 +304,65 @@ def _m(ctx):
 # ------------------------------------------------------------------ replay
 
 
+def _boundary_probes():
+    """(ploidy, n_alleles) with N just below 2^53 (ploidy 2: 2^22 alleles) and genotypes/indices at block boundaries of the number system"""
+    out = []
+    for P in (2, 3, 4, 5, 6, 8, 10):
+        lo, hi = 1, 2 ** 22  # (the inverse map scans the alleles linearly: keep ploidy 2 affordable)
+        while lo < hi:  # largest n_alleles with C(n+P-1, P) < 2^53
+            mid = (lo + hi + 1) // 2
+            if math.comb(mid + P - 1, P) < 2 ** 53:
+                lo = mid
+            else:
+                hi = mid - 1
+        out.append((P, lo))
+    return out
+
+
+def _replay_float(v):
+    """integer-exactness at the edge of the claim (N < 2^53): index <-> genotype round trips and coefficients on the real code"""
+    from mchap import jitutils as rj
+
+    for P, A in _boundary_probes():
+        N = math.comb(A + P - 1, P)
+        gs = [[A - 1] * P, [0] * (P - 1) + [A - 1], list(range(A - P, A)), [A - 2] * (P - 1) + [A - 1], [A // 2] * P, [A // 3] * (P - 1) + [A - 1]]
+        for frac in (2, 3, 5, 7):
+            a = A * (frac - 1) // frac
+            gs.append([max(0, a - 1)] * (P - 1) + [a])
+            gs.append([a] * P)
+        for g in gs:
+            g = sorted(g)
+            rank = _order_index(g)
+            got = int(rj.genotype_alleles_as_index(rnp.array(g, dtype=rnp.int64)))
+            if got != rank:
+                return True, "ploidy %d, %d alleles (N=%d < 2^53): genotype_alleles_as_index(%s)=%d but the VCF rank is %d" % (P, A, N, g, got, rank)
+            for i in (rank, rank - 1, rank + 1):
+                if not 0 <= i < N:
+                    continue
+                back = [int(x) for x in rj.index_as_genotype_alleles(i, P)]
+                if _order_index(sorted(back)) != i or back != sorted(back) or max(back) >= A:
+                    return True, "ploidy %d, %d alleles (N=%d < 2^53): index_as_genotype_alleles(%d)=%s is not the genotype of that VCF index" % (P, A, N, i, back)
+            nxt = rnp.array(g, dtype=rnp.int64)
+            if rank + 1 < N:
+                rj.increment_genotype(nxt)
+                if _order_index([int(x) for x in nxt]) != rank + 1:
+                    return True, "ploidy %d, %d alleles: increment_genotype(%s)=%s is not the successor" % (P, A, g, nxt.tolist())
+        for (n, k) in ((A + P - 1, P), (A + P - 2, P), (A + P - 2, P - 1)):
+            if int(rj.comb(n, k)) != math.comb(n, k):
+                return True, "comb(%d,%d)=%d exact %d" % (n, k, int(rj.comb(n, k)), math.comb(n, k))
+        if int(rj.comb_with_replacement(A, P)) != N:
+            return True, "comb_with_replacement(%d,%d)=%d exact %d" % (A, P, int(rj.comb_with_replacement(A, P)), N)
+    return False, "float arithmetic present but exact on every boundary probe"
+
+
 def replay(v):
     from mchap import jitutils as rj
 
     w = v.get("witness") or {}
     k = v["kind"]
     g = v["config"]["group"]
+    if k == "float-arithmetic":
+        return _replay_float(v)
     if k == "index-vs-vcf-order":
         got = int(rj.genotype_alleles_as_index(rnp.array(w["g"])))
         return got != _order_index(w["g"]), "index(%s)=%d rank=%d" % (w["g"], got, _order_index(w["g"]))
@@ -382,4 +454,7 @@ def validate(seed):
         nn, kk = rnd.randint(0, 150), rnd.randint(0, 6)
         assert int(ju.comb(nn, kk)) == int(rj.comb(nn, kk)) == math.comb(nn, kk)
         n += 3
-    return n
+    # the boundary probes hold on the real code (they are what decides a float-arithmetic candidate)
+    bad, info = _replay_float({})
+    assert not bad, info
+    return n + 1
